@@ -160,6 +160,9 @@ func getRanger(v reflect.Value) (r Ranger, cleanup func(), err error) {
 	}
 	t := v.Type()
 	if t.Implements(rangerType) {
+		if isNilInterface(v) {
+			return nil, nil, fmt.Errorf("cannot range over nil pointer/interface (%s)", t)
+		}
 		return v.Interface().(Ranger), func() { /* no cleanup needed */ }, nil
 	}
 
